@@ -1223,6 +1223,23 @@ pub fn main(args: &[String]) {
                 .unwrap();
             treegen::compute(&mut t, root, Size::MAX_CONTENT);
             println!("a.x={} b.x={} b.margin.left={}", t.unrounded_layout(a).location.x, t.unrounded_layout(bb).location.x, t.unrounded_layout(bb).margin.left);
+            // witness of C07_inset_refuted (Props/C07.v): row container 100 wide, two 20-wide items, the first `position: relative; left: 30`.
+            // The model puts them at x = 30 and x = 20: the first overlaps the second (by design: a relative inset shifts the box after
+            // layout).  Replay only: the C07 oracle generates no relative insets (GenCfg.insets = false).
+            let mut t: TaffyTree<Ctx> = TaffyTree::new();
+            t.disable_rounding();
+            let a = t
+                .new_leaf(Style {
+                    size: Size::from_lengths(20.0, 20.0),
+                    position: Position::Relative,
+                    inset: Rect { left: LengthPercentageAuto::length(30.0), right: LengthPercentageAuto::auto(), top: LengthPercentageAuto::auto(), bottom: LengthPercentageAuto::auto() },
+                    ..Default::default()
+                })
+                .unwrap();
+            let bb = t.new_leaf(Style { size: Size::from_lengths(20.0, 20.0), ..Default::default() }).unwrap();
+            let root = t.new_with_children(Style { size: Size::from_lengths(100.0, 20.0), ..Default::default() }, &[a, bb]).unwrap();
+            treegen::compute(&mut t, root, Size::MAX_CONTENT);
+            println!("inset a.x={} a.w={} b.x={}", t.unrounded_layout(a).location.x, t.unrounded_layout(a).size.width, t.unrounded_layout(bb).location.x);
         }
         _ => {
             eprintln!("c07: unknown command");
